@@ -15,6 +15,7 @@ from sa.ctx import Ctx, short, stmt_key, reaching_defs
 from sa.cfg import NORMAL, describe_path
 from sa.report import Report
 from sa import sql, pat
+from sa.util import fact_in
 
 # column of table `cloud`  ->  name of the Storage-interface argument that carries it
 COL_TO_ARG = {"id": "eid", "tag": "tag", "serialization": "serialization"}
@@ -108,7 +109,7 @@ class C09:
                     # the un-filtered form is only legal on the branch where no tag was given
                     facts = ctx.facts_at(f, call)
                     tagp = f.params()[1] if len(f.params()) > 1 else "tag"
-                    guarded = ("%s is None" % tagp, True) in facts or ("%s" % tagp, False) in facts
+                    guarded = fact_in(facts, "%s is None" % tagp, True) or fact_in(facts, "%s" % tagp, False)
                     rep.check("C09.R1", key, loc, guarded, "un-filtered SELECT only under `%s is None`" % tagp,
                               "un-filtered SELECT reachable when a tag was given (facts: %s)" % sorted(facts), func=f.qname)
             if st.kind in ("insert", "update", "delete", "select"):
